@@ -87,7 +87,13 @@ def make_case(seed: int, tier: str, prop: str, opts=None) -> Dict[str, Any]:
            "start_seed": None, "connect_seed": None, "order_seed": None, "iteration_cost": 0.0}
     sc = {"groups": [None], "sims": sims, "conns": conns, "until": rng.choice([2, 3, 4, 5]),
           "config": cfg, "versioned": vi}
-    return {"scenario": sc, "schedule": gen.gen_schedule(seed, sc, rng.choice([0, 1, 2, 3]))}
+    case = {"scenario": sc, "schedule": gen.gen_schedule(seed, sc, rng.choice([0, 1, 2, 3]))}
+    if rng.random() < 0.2:
+        # the versioned simulator fails in one of its steps with an ordinary exception: what it
+        # receives before and after must still be valid for its version, and its error must surface
+        case["faults"] = [{"sid": V["sid"], "req": rng.choice([1, 2, 3, 4, 5]), "phase": "pre", "kind": "raise",
+                           "exc": rng.choice(["ValueError", "TypeError", "KeyError", "RuntimeError", "SimFault"])}]
+    return case
 
 
 def expected_start(V):
@@ -135,11 +141,14 @@ def run_case(case, prop) -> Dict[str, Any]:
     st["expect_" + exp] = 1
     if V.get("cfg_api") is not None:
         st["explicit_cfg_version"] = 1
-    r = runner.execute(sc, sp)
+    r = runner.execute(sc, sp, faults=case.get("faults"))
     out["runs"] += 1
     out["sim_time"] += r.stats["vtime"]
     hd = digest(r.hist)
     viols = []
+    fault = next((h for h in r.hist if h[0] == "fault"), None)
+    if fault is not None:
+        st["fault_raise_in_versioned_sim"] = 1
     feats = {"api": V.get("api"), "stub": V.get("stub", "stub"),
              "transport": "local" if V["transport"] in ("stock", "gated") else "remote"}
     oc = r.outcome
@@ -189,7 +198,21 @@ def run_case(case, prop) -> Dict[str, Any]:
         if v >= [2, 2] and not any(h[0] == "begin" and h[1] == "setup_done" and h[2] == sid for h in r.hist) \
                 and oc[0] == "ok":
             viols.append({"kind": "setup_done_missing", "features": feats, "detail": {"sim": V}})
-        if oc[0] != "ok":
+        if fault is not None:
+            f0 = case["faults"][0]
+            local = V["transport"] in ("stock", "gated")
+            # every step must have been requested at most once per (time, ordinal) ...
+            seen_steps = [(h[4][0], h[5]) for h in r.hist if h[0] == "begin" and h[1] == "step" and h[2] == sid]
+            times = [t for t, _ in seen_steps]
+            if any(times[i] == times[i + 1] for i in range(len(times) - 1)) and V["type"] == "time-based":
+                viols.append({"kind": "step_requested_twice_after_error", "features": dict(feats, exc=f0["exc"]),
+                              "detail": {"sim": V, "steps": seen_steps[:8]}})
+            # ... and the simulator's own error must be what the user gets
+            if local and not (oc[0] == "exception" and (oc[1] == f0["exc"] or (f0["exc"] == "SimFault" and oc[1] == "SimFault"))):
+                viols.append({"kind": "simulator_error_replaced", "features": dict(feats, exc=f0["exc"], got=oc[1] if len(oc) > 1 else oc[0]),
+                              "detail": {"sim": V, "outcome": list(oc)}})
+            out["aborted"] += 1
+        elif oc[0] != "ok":
             viols.append({"kind": "run_failed_with_old_api", "features": dict(feats, outcome=oc[0]),
                           "detail": {"sim": V, "outcome": list(oc), "tb": (r.tb or "")[-600:]}})
             out["aborted"] += 1
